@@ -37,7 +37,7 @@ def run(tier):
     v = common.Verdict(PID, tier, "model_checking")
     b = common.build(need_inproc=False)
     cs = cfgs(tier)
-    rp = l3.Replay(b, v, cs, "checks.c03:judge", variants=2 if tier == "quick" else 3)
+    rp = l3.Replay(b, v, cs, "checks.c03:judge", variants=2 if tier == "quick" else 3, pad_arrays=True)
     shapes = '{"s","sa","os","aos","aas","aaos","oas","xdate","xbin","xdateNL","eo","ea"}' if tier == "quick" else "{}"
     t = l3.generate("RedactorTW", "RedactorTW.cfg", cs, {"TWShapeKinds": shapes}, rp.sink)
     if not t.ok:
